@@ -296,11 +296,16 @@ type consOut struct {
 	// C14: what the model says a derived Schnorr key must expose
 	modelPt *ref.Pt  // the curve point the x-only key was derived from
 	modelD  *big.Int // the private scalar the Schnorr private key was derived from
+	// after the key has been registered: parse this many other, pairwise
+	// different keys of the same kind (whatever the library remembers about
+	// recently parsed keys is pushed out while this object is still in use)
+	burstAfter int
+	burstKind  string
 }
 
 func (w *World) opKeyConstruct() {
 	c := &consOut{}
-	kind := w.t.Choose("ops", "kc.kind", 13)
+	kind := w.t.Choose("ops", "kc.kind", 15)
 	switch kind {
 	case 0, 5: // from private-key bytes
 		src, canonical := w.genScalarBytes("kc.priv")
@@ -534,6 +539,39 @@ func (w *World) opKeyConstruct() {
 				c.k = &keyEntry{kind: "pub", how: "RecoverPublicKey", pub: k}
 			}
 		})
+	case 13, 14: // the same encoding parsed twice (the second object is kept), then a burst of other keys
+		k := int64(1 + w.t.Choose("ops", "kc.bk", 1000))
+		m := ref.BaseMul(big.NewInt(k))
+		c.burstAfter = []int{3, 15, 16, 17, 40}[w.t.Choose("ops", "kc.burst", 5)]
+		if kind == 13 {
+			xb := ref.I2OSP32(m.X)
+			c.burstKind = "x-only"
+			c.supplied, c.orig = xb, append([]byte(nil), xb...)
+			c.modelPt = &m
+			c.desc = fmt.Sprintf("NewSchnorrPublicKey(%x) [second parse of these bytes; then %d other keys]", xb, c.burstAfter)
+			c.po = protect(func() {
+				_, _ = bitcoin.NewSchnorrPublicKey(append([]byte(nil), xb...))
+				k, err := bitcoin.NewSchnorrPublicKey(xb)
+				c.err = err
+				if k != nil {
+					c.k = &keyEntry{kind: "spub", how: "NewSchnorrPublicKey(twice)", spub: k}
+				}
+			})
+		} else {
+			enc := m.Compressed()
+			c.burstKind = "compressed"
+			c.supplied, c.orig = enc, append([]byte(nil), enc...)
+			c.desc = fmt.Sprintf("NewPublicKey(%x) [second parse of these bytes; then %d other keys]", enc, c.burstAfter)
+			c.po = protect(func() {
+				_, _ = secec.NewPublicKey(append([]byte(nil), enc...))
+				k, err := secec.NewPublicKey(enc)
+				c.err = err
+				if k != nil {
+					c.k = &keyEntry{kind: "pub", how: "NewPublicKey(twice)", pub: k}
+				}
+			})
+		}
+		w.r.Fault("burst_of_key_parses")
 	case 12: // crafted so that the recovered point is the point at infinity: s*R = e*G
 		e := big.NewInt(int64(1 + w.t.Choose("ops", "kc.re", 5000)))
 		bigR := ref.BaseMul(e)
@@ -604,6 +642,23 @@ func (w *World) opKeyConstruct() {
 	idx := w.addKey(c.k)
 	if c.supplied != nil {
 		w.trackBuf(c.supplied, "supplied:"+name, idx)
+	}
+	if c.burstAfter > 0 {
+		// other keys, made with the library itself (inputs only; whether they
+		// are right is not this step's business)
+		base := 5000 + w.t.Choose("ops", "kc.burstbase", 100000)
+		po := protect(func() {
+			for i := 0; i < c.burstAfter; i++ {
+				pt := secp256k1.NewIdentityPoint().ScalarBaseMult(scalarFromInt(big.NewInt(int64(base + i))))
+				if c.burstKind == "x-only" {
+					xb, _ := pt.XBytes()
+					_, _ = bitcoin.NewSchnorrPublicKey(xb)
+				} else {
+					_, _ = secec.NewPublicKey(pt.CompressedBytes())
+				}
+			}
+		})
+		w.r.Hist("%d   ... %d other %s keys parsed (panic=%v)", w.step, c.burstAfter, c.burstKind, po.panicked)
 	}
 }
 
